@@ -19,6 +19,7 @@ pub async fn run(op: &str, a: &[String]) -> Option<Vec<String>> {
     Some(match op {
         "stall" => stall(a).await,
         "accept.pace" => accept_pace(a).await,
+        "late.preamble" => late_preamble(a).await,
         "foreign" => foreign(a).await,
         _ => return None,
     })
@@ -753,6 +754,184 @@ async fn accept_pace(a: &[String]) -> Vec<String> {
 }
 
 // ---------------------------------------------------------------------------------------------
+// late.preamble  rt delay_ms how
+//
+// A stream the peer opens for the session is delivered however late its preamble comes. The raw
+// peer opens a uni and a bidi stream and sends only the first byte of their preambles (`how` =
+// `partial`) or nothing at all (`how` = `silent`: the streams become visible through two later,
+// healthy streams), waits `delay_ms`, then sends the rest, a payload and FIN. The application
+// keeps accepting. obs: `uni=<payloads, sorted>` `bi=<payloads, sorted>` `late_write=<ok|…>`.
+
+async fn late_preamble(a: &[String]) -> Vec<String> {
+    let delay = arg_u64(a, 1).min(60_000);
+    let silent = arg(a, 2) == "silent";
+    let fail = |e: String| vec!["uni=-".to_string(), "bi=-".into(), "late_write=-".into(), format!("err={e}")];
+    let rt = match TestRt::new(arg(a, 0)) {
+        Ok(rt) => rt,
+        Err(e) => return fail(e),
+    };
+    let (sep, port) = match endpoints::server(&rt).await {
+        Ok(x) => x,
+        Err(e) => return fail(e),
+    };
+    let shared: Arc<Mutex<(Vec<Vec<u8>>, Vec<Vec<u8>>)>> = Arc::new(Mutex::new((vec![], vec![])));
+    let sep2 = sep.clone();
+    let sh = shared.clone();
+    let app = rt.spawn(async move {
+        let conn = match accept_session(&sep2).await {
+            Ok(c) => c,
+            Err(e) => return Err(format!("session:{e}")),
+        };
+        let deadline = Instant::now() + Duration::from_millis(delay + 4000);
+        let (c, s) = (conn.clone(), sh.clone());
+        let uni_loop = tokio::spawn(async move {
+            let mut readers = vec![];
+            while let Ok(Ok(mut r)) = tokio::time::timeout_at(deadline, c.accept_uni()).await {
+                let s = s.clone();
+                readers.push(tokio::spawn(async move {
+                    if let Ok((data, end)) = tokio::time::timeout_at(deadline, read_all(&mut r)).await {
+                        if end == "eos" {
+                            lock(&s).0.push(data);
+                        }
+                    }
+                    r
+                }));
+            }
+            readers
+        });
+        let (c, s) = (conn.clone(), sh.clone());
+        let bi_loop = tokio::spawn(async move {
+            let mut readers = vec![];
+            while let Ok(Ok((w, mut r))) = tokio::time::timeout_at(deadline, c.accept_bi()).await {
+                let s = s.clone();
+                readers.push(tokio::spawn(async move {
+                    if let Ok((data, end)) = tokio::time::timeout_at(deadline, read_all(&mut r)).await {
+                        if end == "eos" {
+                            lock(&s).1.push(data);
+                        }
+                    }
+                    (w, r)
+                }));
+            }
+            readers
+        });
+        let mut keep: Keep = vec![];
+        for r in joined(uni_loop).await? {
+            if let Ok(r) = joined(r).await {
+                keep.push(Box::new(r));
+            }
+        }
+        for r in joined(bi_loop).await? {
+            if let Ok(r) = joined(r).await {
+                keep.push(Box::new(r));
+            }
+        }
+        keep.push(Box::new(conn));
+        Ok(keep)
+    });
+
+    let sh = shared.clone();
+    let raw_side = async {
+        let mut client = RawClient::session(port, &RawOpts::default()).await?;
+        let mut keep: Keep = vec![];
+        let (pre_u, pre_b) = (wire::wt_uni_preamble(0), wire::wt_bi_preamble(0));
+        let first = usize::from(!silent);
+        let mut late_u = client.open_uni().await?;
+        let (mut late_b, late_b_recv) = client.open_bi().await?;
+        keep.push(Box::new(late_b_recv));
+        if !silent {
+            raw::write_pieces(&mut late_u, &[pre_u[..1].to_vec()], 0).await?;
+            raw::write_pieces(&mut late_b, &[pre_b[..1].to_vec()], 0).await?;
+        }
+        // the healthy ones (their frames also make the two earlier streams exist for the receiver)
+        let mut hu = client.open_uni().await?;
+        let mut b = pre_u.clone();
+        b.extend_from_slice(b"HU");
+        raw::write_pieces(&mut hu, &[b], 0).await?;
+        hu.finish().map_err(|_| "finish:closed".to_string())?;
+        keep.push(Box::new(hu));
+        let (mut hb, hb_recv) = client.open_bi().await?;
+        let mut b = pre_b.clone();
+        b.extend_from_slice(b"HB");
+        raw::write_pieces(&mut hb, &[b], 0).await?;
+        hb.finish().map_err(|_| "finish:closed".to_string())?;
+        keep.push(Box::new(hb));
+        keep.push(Box::new(hb_recv));
+
+        tokio::time::sleep(Duration::from_millis(delay)).await;
+
+        let mut late_write = "ok".to_string();
+        let mut b = pre_u[first..].to_vec();
+        b.extend_from_slice(b"LU");
+        if let Err(e) = raw::write_pieces(&mut late_u, &[b], 0).await {
+            late_write = format!("uni:{e}");
+        }
+        let _ = late_u.finish();
+        let mut b = pre_b[first..].to_vec();
+        b.extend_from_slice(b"LB");
+        if let Err(e) = raw::write_pieces(&mut late_b, &[b], 0).await {
+            late_write = format!("bi:{e}");
+        }
+        let _ = late_b.finish();
+        keep.push(Box::new(late_u));
+        keep.push(Box::new(late_b));
+        // until everything was delivered (at most 3 s), then the clean close
+        let t0 = Instant::now();
+        while t0.elapsed() < Duration::from_millis(3000) {
+            {
+                let s = lock(&sh);
+                if s.0.len() >= 2 && s.1.len() >= 2 {
+                    break;
+                }
+            }
+            tokio::time::sleep(Duration::from_millis(10)).await;
+        }
+        if let Some((s, _)) = client.req.as_mut() {
+            let _ = s.finish();
+        }
+        keep.push(Box::new(client));
+        Ok::<(Keep, String), String>((keep, late_write))
+    };
+    let raw_res = raw_side.await;
+    if raw_res.is_err() {
+        app.abort();
+    }
+    let app_res = joined(app).await;
+    let (mut uni, mut bi) = {
+        let s = lock(&shared);
+        (s.0.clone(), s.1.clone())
+    };
+    uni.sort();
+    bi.sort();
+    let join = |v: &Vec<Vec<u8>>| {
+        if v.is_empty() {
+            "-".to_string()
+        } else {
+            v.iter().map(|x| hex(x)).collect::<Vec<_>>().join(",")
+        }
+    };
+    let mut obs = vec![format!("uni={}", join(&uni)), format!("bi={}", join(&bi))];
+    match &raw_res {
+        Ok((_, lw)) => obs.push(format!("late_write={lw}")),
+        Err(e) => {
+            obs.push("late_write=-".into());
+            obs.push(format!("err=raw:{e}"));
+        }
+    }
+    let app_err: Option<String> = match &app_res {
+        Ok(Ok(_)) => None,
+        Ok(Err(e)) | Err(e) => Some(e.clone()),
+    };
+    if let (Some(e), true) = (app_err, raw_res.is_ok()) {
+        obs.push(format!("err=app:{e}"));
+    }
+    drop(raw_res);
+    drop(app_res);
+    drop(sep);
+    obs
+}
+
+// ---------------------------------------------------------------------------------------------
 // foreign  rt kinds
 
 /// Pause after every item the raw peer sends.
@@ -1139,6 +1318,13 @@ fn gen_c07(thorough: bool, rng: &mut Rng, emit: &mut dyn FnMut(&str, Vec<String>
 }
 
 fn gen_c08(thorough: bool, rng: &mut Rng, emit: &mut dyn FnMut(&str, Vec<String>)) {
+    // preambles that come late
+    let delays: &[u64] = if thorough { &[300, 1000, 3000, 6500, 11_000, 21_000] } else { &[1000, 6500] };
+    for (i, d) in delays.iter().enumerate() {
+        for (j, how) in ["partial", "silent"].iter().enumerate() {
+            emit("late.preamble", vec![s(RTS[(i + j) % 2]), s(d), s(how)]);
+        }
+    }
     let mut sizes: Vec<(usize, usize)> =
         vec![(1, 0), (0, 1), (50, 50), (100, 0), (0, 100), (250, 150)];
     if thorough {
